@@ -172,10 +172,16 @@ pub fn fired(name: &str) {
 }
 
 pub fn rel(root: &Path, p: &Path) -> String {
-    match p.strip_prefix(root) {
+    let s = match p.strip_prefix(root) {
         Ok(r) => r.to_string_lossy().into_owned(),
         Err(_) => p.to_string_lossy().into_owned(),
+    };
+    // `<root>/./x` and `<root>/x` are the same path (a CLI root given as `.`)
+    let mut s = s.replace("/./", "/");
+    while let Some(t) = s.strip_suffix("/.") {
+        s = t.to_string();
     }
+    s
 }
 
 /// Strip the scratch prefix from a diagnostic so that logs are comparable between runs.
